@@ -3,6 +3,7 @@ import ZorgVerif.Gen.Consts
 import ZorgVerif.Model.Zid
 import ZorgVerif.Model.Groups
 import ZorgVerif.Model.Rename
+import ZorgVerif.Model.Template
 /-! Line protocol: one JSON request per line on stdin, one JSON answer per line on stdout. -/
 open Lean ZorgVerif
 
@@ -95,6 +96,39 @@ def handleRename (op : String) (j : Json) : Except String Json := do
       ("safe", Rename.linkSafe a && Rename.linkSafe b)])
   | _ => throw s!"unknown op {op}"
 
+def varsOf (j : Json) : Except String Template.Vars := do
+  let a ← j.getArr?
+  a.toList.mapM (fun p => do
+    let kv ← p.getArr?
+    let k ← (kv[0]?.getD Json.null).getStr?
+    let v ← (kv[1]?.getD Json.null).getStr?
+    pure (k.toList, v.toList))
+
+def handleTemplate (op : String) (j : Json) : Except String Json := do
+  match op with
+  | "template.init" =>
+    let ex ← j.getObjValAs? Bool "exists"
+    let ow ← j.getObjValAs? Bool "overwrite"
+    let ps ← arrOf j "pats"
+    let pats : List Template.PatResult ← ps.toList.mapM (fun p => do
+      let t ← strOf p "tmpl"
+      let g := (p.getObjVal? "groups").toOption.getD Json.null
+      let groups ← if g.isNull then pure none else (do let v ← varsOf g; pure (some v))
+      pure ⟨groups, t.toList⟩)
+    let explicit := match j.getObjValAs? String "explicit" with
+      | .ok s => some s.toList
+      | .error _ => none
+    let vars ← varsOf ((j.getObjVal? "vars").toOption.getD (Json.arr #[]))
+    match Template.init ex ow pats explicit vars with
+    | .noop => pure (Json.mkObj [("action", "noop")])
+    | .write t vs =>
+      pure (Json.mkObj [("action", "write"), ("tmpl", jstr t),
+        ("vars", Json.arr (vs.map (fun (k, v) => Json.arr #[jstr k, jstr v, Json.bool (Template.looksLikeDate v)])).toArray)])
+  | "template.build" =>
+    let txt ← strOf j "txt"
+    pure (Json.mkObj [("built", jstr (Template.build txt.toList))])
+  | _ => throw s!"unknown op {op}"
+
 def handle (line : String) : Json :=
   match Json.parse line with
   | .error e => Json.mkObj [("driver_error", s!"parse: {e}")]
@@ -106,6 +140,7 @@ def handle (line : String) : Json :=
         if op.startsWith "zid." then handleZid op j
         else if op.startsWith "groups." then handleGroups op j
         else if op.startsWith "rename." then handleRename op j
+        else if op.startsWith "template." then handleTemplate op j
         else .error s!"unknown op {op}"
       match r with
       | .ok v => v
